@@ -657,6 +657,12 @@ def check_point(plan, res, info):
     why = [chain_ok(s) for s in okline]
     if all(why):
         w = why[0]
+        # candidates of another call depth (the statement before the catch was entered, after it was left) cannot be the one that
+        # was executing: when those of the observed depth all differ by a multiple of 65536 lines only, that is the known wrap
+        same = [chain_ok(s_) for s_ in okline if len(s_['chain']) == len(gtr)]
+        if same and all(x and x.startswith('wraps-at-65536') for x in same):
+            v.append(Violation(PROP, 'trace', 'error injected at %s: outer trace frame line wraps at 65536: %s' % (res.events[fi].rest, same[0]), PROP + '/trace/wraps-at-65536'))
+            return v
         if all(x.startswith('wraps-at-65536') for x in why):
             v.append(Violation(PROP, 'trace', 'error injected at %s: outer trace frame line wraps at 65536: %s' % (res.events[fi].rest, w), PROP + '/trace/wraps-at-65536'))
             return v
